@@ -102,7 +102,7 @@ fn o5_3_corner_arcs_are_right_angle() {
     assert!(arc.is_aabb_right_angle_arc(), "O5.3 a quarter arc of a rounded corner is a right-angle arc at every position");
 }
 
-//@ harness: o1_5_right_angle_arc_total props=C01,C05 tier=quick obl=O1.5 timeout=800 mem=10
+//@ harness: o1_5_right_angle_arc_total props=C01 tier=quick obl=O1.5 timeout=800 mem=10
 //@ desc: Arc::is_aabb_right_angle_arc and Arc::center never panic for ANY lattice arc (eighth-unit endpoints in a 3x3-cell window at a cell offset <= 64x64, radius 0.125..4 in eighths), including arcs whose chord is longer than their diameter (centre = NaN) and zero-length chords; powf stubbed by exact square
 //@ encodes: Arc::is_aabb_right_angle_arc, Arc::center, Arc::new
 #[kani::proof]
